@@ -160,4 +160,305 @@ def goMatch (pattern name : Bytes) : MatchRes := goMatchF (pattern.length + 1) p
 /-- `hasMeta(path)`: contains one of `*?[\` -/
 def hasMeta (path : Bytes) : Bool := path.any fun c => c == 42 || c == 63 || c == 91 || c == 92
 
+/-! ## An abstract file system
+
+A finite tree of names: every node is a regular file, a symbolic link (with its target text) or a
+directory (its entries in no particular order – everything that lists a directory sorts the names, as
+`os.ReadDir`, `filepath.Glob` and `filepath.Walk` do).  The tree is the whole world: its root is both
+`/` and the working directory, `..` of the root is the root.
+
+Path resolution (`lstat`, `stat`, `readDirNames`) follows path_resolution(7): components separated by
+runs of `/`, `.` and `..`, symbolic links expanded relative to the directory that contains them (at most
+40 per look-up, ELOOP after that), a trailing `/` forces the last component to be (or resolve to) a
+directory, `lstat` does not follow a link in the last component unless a `/` follows it.  Not modelled:
+permissions (the checks run as root), `PATH_MAX`/`NAME_MAX`, devices/fifos/sockets. -/
+
+abbrev Name := Bytes
+
+mutual
+  inductive Node
+    | file
+    | link (target : Bytes)
+    | dir (ents : Ents)
+  inductive Ents
+    | nil
+    | cons (name : Name) (node : Node) (rest : Ents)
+end
+
+def Ents.find (n : Name) : Ents → Option Node
+  | .nil => none
+  | .cons m node rest => if m = n then some node else rest.find n
+
+def Ents.names : Ents → List Name
+  | .nil => []
+  | .cons m _ rest => m :: rest.names
+
+def Node.isDir : Node → Bool
+  | .dir _ => true
+  | _ => false
+
+/-- the node at a physical location (a list of names of real directories, then any node) -/
+def Node.at : Node → List Name → Option Node
+  | n, [] => some n
+  | .dir ents, c :: cs => match ents.find c with
+    | some child => child.at cs
+    | none => none
+  | _, _ :: _ => none
+
+/-- the pieces of a path between its `/`s (empty pieces for `//`, a leading or a trailing `/`) -/
+def splitSlash : Bytes → List Bytes
+  | [] => [[]]
+  | c :: cs =>
+    if c = 47 then [] :: splitSlash cs
+    else match splitSlash cs with
+      | [] => [[c]]
+      | h :: t => (c :: h) :: t
+
+/-- the components of a path -/
+def comps (path : Bytes) : List Name := (splitSlash path).filter (· ≠ [])
+
+def dot : Name := [46]
+def dotdot : Name := [46, 46]
+
+/-- where a look-up stands: the physical location of the current directory and the number of symbolic
+    links followed so far -/
+structure RState where
+  stack : List Name
+  links : Nat
+  deriving Repr, DecidableEq
+
+def maxSymlinks : Nat := 40
+
+/-- one component that has to be a directory; `fl` follows a symbolic link (`none` = error) -/
+def enterStep (fl : RState → Bytes → Option RState) (root : Node) (st : RState) (c : Name) : Option RState :=
+  if c = dot then some st
+  else if c = dotdot then some { st with stack := st.stack.dropLast }
+  else match root.at (st.stack ++ [c]) with
+    | none => none                                        -- ENOENT
+    | some .file => none                                  -- ENOTDIR
+    | some (.dir _) => some { st with stack := st.stack ++ [c] }
+    | some (.link t) =>
+      if st.links ≥ maxSymlinks then none                 -- ELOOP
+      else fl { st with links := st.links + 1 } t
+
+/-- walk through components that all have to be directories; the first argument bounds the nesting of
+    symbolic links (never reached before the total of 40 is) -/
+def enter : Nat → Node → RState → List Name → Option RState
+  | 0, root, st, cs => cs.foldlM (enterStep (fun _ _ => none) root) st
+  | d + 1, root, st, cs =>
+    cs.foldlM (enterStep (fun st' t =>
+      if t = [] then none
+      else enter d root { st' with stack := if t.head? = some 47 then [] else st'.stack } (comps t)) root) st
+
+def dirNodeAt (root : Node) (stack : List Name) : Option Node :=
+  match root.at stack with
+  | some (.dir e) => some (.dir e)
+  | _ => none
+
+/-- resolve `path` from the directory `st`; `follow` = follow a symbolic link in the last component -/
+def resolveAt : Nat → Node → RState → Bytes → Bool → Option Node
+  | d, root, st, path, follow =>
+    if path = [] then none                          -- ENOENT
+    else if path.contains 0 then none               -- EINVAL
+    else
+      let st0 : RState := if path.head? = some 47 then { st with stack := [] } else st
+      let cs := comps path
+      match cs.getLast? with
+      | none => dirNodeAt root st0.stack             -- "/", "//", …
+      | some last =>
+        match enter d root st0 cs.dropLast with
+        | none => none
+        | some st1 =>
+          if path.getLast? = some 47 ∨ last = dot ∨ last = dotdot then
+            match enter d root st1 [last] with
+            | none => none
+            | some st2 => dirNodeAt root st2.stack
+          else match root.at (st1.stack ++ [last]) with
+            | none => none
+            | some (.link t) =>
+              if follow then
+                if st1.links ≥ maxSymlinks then none
+                else match d with
+                  | 0 => none
+                  | d' + 1 => resolveAt d' root { st1 with links := st1.links + 1 } t true
+              else some (.link t)
+            | some n => some n
+
+def rootState : RState := ⟨[], 0⟩
+
+/-- `os.Lstat(path)`: the node, `none` = any error -/
+def lstat (root : Node) (path : Bytes) : Option Node := resolveAt maxSymlinks root rootState path false
+/-- `os.Stat(path)` -/
+def stat (root : Node) (path : Bytes) : Option Node := resolveAt maxSymlinks root rootState path true
+
+/-- bytewise lexicographic `≤` (Go's string order) -/
+def lexLe : Bytes → Bytes → Bool
+  | [], _ => true
+  | _ :: _, [] => false
+  | a :: as, b :: bs => a < b || (a == b && lexLe as bs)
+
+def insertName (n : Name) : List Name → List Name
+  | [] => [n]
+  | m :: ms => if lexLe n m then n :: m :: ms else m :: insertName n ms
+
+/-- `slices.Sort(names)` (as an insertion sort: the sorted arrangement of distinct names is unique) -/
+def sortNames (names : List Name) : List Name := names.foldr insertName []
+
+/-- `os.Open(dir)` + `Readdirnames(-1)` + sort -/
+def readDirNames (root : Node) (path : Bytes) : Option (List Name) :=
+  match stat root path with
+  | some (.dir ents) => some (sortNames ents.names)
+  | _ => none
+
+/-! ## `filepath.Clean`, `Join`, `Split` -/
+
+def intercalateSlash : List Bytes → Bytes
+  | [] => []
+  | [a] => a
+  | a :: b :: rest => a ++ 47 :: intercalateSlash (b :: rest)
+
+/-- `filepath.Clean` (component-wise formulation) -/
+def clean (path : Bytes) : Bytes :=
+  if path = [] then dot
+  else
+    let rooted := path.head? = some 47
+    let out := (splitSlash path).foldl (fun (stack : List Bytes) c =>
+      if c = [] ∨ c = dot then stack
+      else if c = dotdot then
+        if stack ≠ [] ∧ stack.getLast? ≠ some dotdot then stack.dropLast
+        else if rooted then stack
+        else stack ++ [dotdot]
+      else stack ++ [c]) []
+    let s := intercalateSlash out
+    if rooted then 47 :: s else if s = [] then dot else s
+
+/-- `filepath.Join(a, b)` -/
+def join (a b : Bytes) : Bytes :=
+  if a = [] ∧ b = [] then []
+  else if a = [] then clean b
+  else if b = [] then clean a
+  else clean (a ++ 47 :: b)
+
+/-- `filepath.Split(path)`: up to and including the last `/`, and the rest -/
+def splitPath (path : Bytes) : Bytes × Bytes :=
+  let file := (path.reverse.takeWhile (· ≠ 47)).reverse
+  (path.take (path.length - file.length), file)
+
+/-- `cleanGlobPath` -/
+def cleanGlobPath (path : Bytes) : Bytes :=
+  if path = [] then dot
+  else if path = [47] then path
+  else path.dropLast
+
+/-! ## `filepath.Glob` -/
+
+inductive GlobOut
+  | badPattern
+  | ok (l : List Bytes)
+  deriving DecidableEq, Repr
+
+/-- the loop `for _, n := range names` of `glob` -/
+def globNames (dir pattern : Bytes) : List Name → List Bytes → GlobOut
+  | [], m => .ok m
+  | n :: ns, m =>
+    match goMatch pattern n with
+    | .matched true => globNames dir pattern ns (m ++ [join dir n])
+    | .matched false => globNames dir pattern ns m
+    | _ => .badPattern
+
+/-- `glob(dir, pattern, matches)`; errors of the file system are ignored, `ErrBadPattern` is not
+    (the partial result it comes with is dropped: no caller looks at it) -/
+def globDir (root : Node) (dir pattern : Bytes) (m : List Bytes) : GlobOut :=
+  match readDirNames root dir with
+  | none => .ok m
+  | some names => globNames dir pattern names m
+
+def globDirs (root : Node) (file : Bytes) : List Bytes → List Bytes → GlobOut
+  | [], m => .ok m
+  | d :: ds, m =>
+    match globDir root d file m with
+    | .badPattern => .badPattern
+    | .ok m' => globDirs root file ds m'
+
+def pathSeparatorsLimit : Nat := 10000
+
+/-- `globWithLimit(pattern, depth)`; the fuel is `pathSeparatorsLimit - depth` -/
+def globF : Nat → Node → Bytes → GlobOut
+  | 0, _, _ => .badPattern
+  | f + 1, root, pattern =>
+    match goMatch pattern [] with
+    | .matched _ =>
+      if !hasMeta pattern then
+        if (lstat root pattern).isSome then .ok [pattern] else .ok []
+      else
+        let (dir0, file) := splitPath pattern
+        let dir := cleanGlobPath dir0
+        if !hasMeta dir then globDir root dir file []
+        else if dir = pattern then .badPattern
+        else match globF f root dir with
+          | .badPattern => .badPattern
+          | .ok m => globDirs root file m []
+    | _ => .badPattern
+
+/-- `filepath.Glob(pattern)` -/
+def glob (root : Node) (pattern : Bytes) : GlobOut := globF pathSeparatorsLimit root pattern
+
+/-! ## `filepath.Walk` with rare's callback
+
+The callback returns the error it is handed (which ends the walk) and sends every path whose
+`Lstat` is not a directory; what was sent before an error stays sent, so the answer is the list of
+paths sent and whether the walk ran to its end. -/
+
+mutual
+  def Node.size : Node → Nat
+    | .dir e => 1 + e.size
+    | _ => 1
+  def Ents.size : Ents → Nat
+    | .nil => 0
+    | .cons _ n rest => n.size + rest.size
+end
+
+/-- the loop `for _, name := range names` of `walk`; `rec` is `walk` itself one level down -/
+def walkNames (rec : Bytes → Node → List Bytes × Bool) (root : Node) (path : Bytes) : List Name → List Bytes × Bool
+  | [] => ([], true)
+  | name :: rest =>
+    let filename := join path name
+    match lstat root filename with
+    | none => ([], false)
+    | some fi =>
+      let r := rec filename fi
+      if r.2 then
+        let r2 := walkNames rec root path rest
+        (r.1 ++ r2.1, r2.2)
+      else r
+
+/-- `walk(path, info, walkFn)` -/
+def walkF : Nat → Node → Bytes → Node → List Bytes × Bool
+  | 0, _, _, _ => ([], false)
+  | f + 1, root, path, info =>
+    match info with
+    | .dir _ =>
+      match readDirNames root path with
+      | none => ([], false)
+      | some names => walkNames (fun filename fi => walkF f root filename fi) root path names
+    | _ => ([path], true)
+
+/-- `filepath.Walk(root, fn)`: the paths sent -/
+def walk (root : Node) (path : Bytes) : List Bytes :=
+  match lstat root path with
+  | none => []
+  | some info => (walkF (root.size + 2) root path info).1
+
+/-! ## rare's `dirwalk` on top -/
+
+/-- `isDir(path)` -/
+def isDir (root : Node) (path : Bytes) : Bool :=
+  match stat root path with
+  | some (.dir _) => true
+  | _ => false
+
+/-- `walkRoot(path)` -/
+def walkRoot (path : Bytes) : Bytes :=
+  if path = [] ∨ path.getLast? = some 47 then path else path ++ [47]
+
 end Rare.C06.Glob
